@@ -949,6 +949,11 @@ class Function(Ring):
         if isinstance(x, cls):
             return x
 
+        elif isinstance(x, numpy.ndarray):
+            # a constant operand: record its value at this moment (the caller may re-use the
+            # array, e.g. a scratch buffer that is filled differently before every use)
+            return cls(x.copy())
+
         else:
             return cls(x)
 
